@@ -20,6 +20,13 @@ func (fc *fnCtx) execBlock(b *ssa.BasicBlock, st *state, edgeIn map[*ssa.BasicBl
 			fc.execAlloc(st, i)
 		case *ssa.Store:
 			fc.anchor(st, "store", i, nil, fc.storeTarget(i), false)
+			if a, ok := i.Addr.(*ssa.Alloc); ok {
+				if sv, isV := fc.env[i.Val].(Val); isV {
+					if src, shared := fc.aliasOf[sv.T]; shared {
+						fc.aliasCell[a] = src // this variable may hold a reslice sharing src's backing array
+					}
+				}
+			}
 			fc.store(st, fc.asAddr(i.Addr), fc.val(i.Val))
 			fc.anchor(st, "store", i, nil, fc.storeTarget(i), true)
 		case *ssa.UnOp:
@@ -368,7 +375,11 @@ func (fc *fnCtx) execSlice(st *state, i *ssa.Slice) {
 		}
 		hi := fc.val(i.High)
 		fc.safety(st, "slice-bounds", fmt.Sprintf("(and (<= 0 %s) (<= %s (slen %s)))", hi.T, hi.T, x.T), i.Pos())
-		fc.env[i] = Val{T: fmt.Sprintf("((as mkslice %s) (sarr %s) %s)", s, x.T, hi.T), S: s, Ty: i.Type()}
+		rv := Val{T: fc.def(s, fmt.Sprintf("((as mkslice %s) (sarr %s) %s)", s, x.T, hi.T)), S: s, Ty: i.Type()}
+		// the reslice shares its backing array with x (slices are values in this model): remember it,
+		// appending to it while it is shorter than x would overwrite memory x's owner can see
+		fc.aliasOf[rv.T] = x
+		fc.env[i] = rv
 	default:
 		unsup("slice of %s", i.X.Type())
 	}
